@@ -5,8 +5,13 @@
      a[4] = [r; MODULUS_BIT_SIZE of F_r; limbs N of its BigInt]
      a[5] = op parameters   a[6] = scalars (integers)   a[7] = bases, flat affine coordinates
             (SW: x, y, infinity-flag per point; TE: x, y per point)
-   Result: one affine point (hash-map order is not observable). *)
-From V Require Import Base.Field Base.Word C03.CurveExec C05.MsmModel C05.StreamModel.
+   Result: one affine point (hash-map order is not observable).
+   Pairing target groups (`PairingOutput<P>`, kind 2 = Fp12 = Fp6[w]/(w^2 - v), kind 3 = Fp4 = Fp2[v]/(v^2 - u)):
+     a[2] = [nr2]              Fp2 = Fp[u]/(u^2 - nr2)
+     a[3] = [c0; c1]           Fp6 = Fp2[v]/(v^3 - (c0 + c1 u))   (kind 3: unused)
+     a[7] = bases, 12 (4) base-prime-field coordinates per element; result: the coordinates of one element.
+     op 1 (params): a[7] = the generator e(G1, G2) the generator of prop.py builds its bases from. *)
+From V Require Import Base.Field Base.Word C03.CurveExec C05.MsmModel C05.StreamModel C05.GtModel.
 
 Definition unsupported : list (list Z) := [[9]].
 Definition arg (n : nat) (a : list (list Z)) : list Z := nth n a [].
@@ -87,7 +92,7 @@ Section RunG.
     end.
 End RunG.
 
-Definition run_C05 (op : Z) (a : list (list Z)) : list (list Z) :=
+Definition run_C05_curves (op : Z) (a : list (list Z)) : list (list Z) :=
   let kind := nth 1 (arg 0 a) 0 in
   let p := nth 0 (arg 1 a) 0 in
   let F := ZpOps p in
@@ -112,3 +117,39 @@ Definition run_C05 (op : Z) (a : list (list Z)) : list (list Z) :=
                         | None => [[2]]
                         end) op a
   end.
+
+(* ---------- pairing target groups: the dictionary [gt_gops] over the executed tower ---------- *)
+Section RunGT.
+  Context {T : Type} (B : Fops T) (nr : T).
+  Local Notation Q := (QuadOps B nr).
+
+  Definition gt_unit (i : nat) : T * T :=
+    fof Q (map (fun j => if Nat.eqb j i then 1 else 0) (seq 0 (fdeg Q))).
+
+  Definition run_gt (op : Z) (a : list (list Z)) : list (list Z) :=
+    match op with
+    | 1 => let u := gt_unit 1 in
+           let v := gt_unit 2 in
+           let w := gt_unit (Nat.div2 (fdeg Q)) in
+           let g := fof Q (arg 7 a) in
+           (* tower constants as products of basis elements (compared with the real field), the scalar-field
+              parameters, NEGATION_IS_CHEAP = INVERSE_IS_FAST = true, the generator and g * conj g (= 1) *)
+           [[0]; [fchar Q]; fcoords Q (fmul Q u u); fcoords Q (fmul Q v v); fcoords Q (fmul Q (fmul Q v v) v);
+            fcoords Q (fmul Q w w); arg 4 a; [1]; fcoords Q g; fcoords Q (fmul Q g (gt_conj B g))]
+    | _ => run_ops (gt_gops B nr) (feqb Q)
+                   (fun l => map (fof Q) (chunk (fdeg Q) (length l) l))
+                   (fun g => [[0]; fcoords Q g]) op a
+    end.
+End RunGT.
+
+Definition run_C05 (op : Z) (a : list (list Z)) : list (list Z) :=
+  let kind := nth 1 (arg 0 a) 0 in
+  let p := nth 0 (arg 1 a) 0 in
+  if (op =? 8) || (kind <? 2) then run_C05_curves op a
+  else
+    let F2 := QuadOps (ZpOps p) (nth 0 (arg 2 a) 0 mod p) in
+    if kind =? 2 then
+      let F6 := CubicOps F2 (nth 0 (arg 3 a) 0 mod p, nth 1 (arg 3 a) 0 mod p) in
+      run_gt F6 ((0, 0), (1 mod p, 0), (0, 0)) op a
+    else if kind =? 3 then run_gt F2 (0, 1 mod p) op a
+    else unsupported.
